@@ -94,6 +94,14 @@ CLAIMED = {
              "the stock) are refused. Container solvent: invariants proved, quantity/concentration/conservation by correspondence + oracle (partial).",
              technique="Coq proof over Q (2x2 exact solve soundness + aliquot lemma + field); differential correspondence; read-back and conservation oracle",
              design="5 C12"),
+ 'C18': dict(text="Theorems (any two configurations: any supported prefix or none for the moles and the volume storage unit): a simulation relation R "
+             "between runs; construction, _self_add, transfer, remove, fill_to take the same decision (same error class) and yield R-related "
+             "results; by induction every script of container operations does (crun_R); on R-related states get_volume, get_concentration, "
+             "per-substance amounts and totals in every user unit coincide. Dilute / solutions / plates / recipes / tracking queries are covered by "
+             "the correspondence: the same generated scripts run in SEPARATE PROCESSES under 7-9 configurations (uL/umol, mL/mmol, nmol, mol, "
+             "L, daL, precision 12) are compared pairwise in user units and each against the model under the matching cfg (partial for those).",
+             technique="Coq proof (simulation between configurations, induction over scripts); multi-process differential correspondence across configurations",
+             design="5 C18"),
  'C13': dict(text="Theorems (all plate sizes, label lists, selectors of the grammar): positions are 1-based and labels/integers interchangeable; "
              "'A:1', ('A','1'), (i,j) and one-element lists denote the same well; the iteration performed for a slice equals the documented "
              "comprehension (both ends included, open ends to the edge, every k-th for a positive step); lists keep their order; nothing "
